@@ -337,8 +337,9 @@ class DescriptorTransaction(_TransactionBase):
                     proc.descr_deleted.extend([d.mk_copy() for d in all_descriptors])
                     # increment DescriptorVersion if a child descriptor is added or deleted.
                     if orig_descriptor.parent_handle is not None \
-                            and orig_descriptor.parent_handle not in to_be_deleted_handles:
-                        # only update parent if it is not also deleted in this transaction
+                            and orig_descriptor.parent_handle not in to_be_deleted_handles \
+                            and orig_descriptor.parent_handle not in deleted_subtree_handles:
+                        # only update parent if it is not also deleted in this transaction (itself or with an ancestor)
                         self._increment_parent_descriptor_version(proc, orig_descriptor)
                 elif new_descriptor.Handle in deleted_subtree_handles:
                     continue  # an ancestor is deleted in this transaction
